@@ -357,3 +357,182 @@ theorem Rep.length {T pts} (h : Rep T pts) : T.length = pts.length := by
   simpa using this
 
 end Qryn.LogQL
+
+namespace Qryn.Sql
+
+theorem groupsBy_head {α κ} [BEq κ] [LawfulBEq κ] (key : α → κ) (l : List α) (g : κ × List α) (h : g ∈ groupsBy key l) :
+    (∃ a rest, g.2 = a :: rest ∧ key a = g.1) ∧ (∀ x ∈ g.2, x ∈ l ∧ key x = g.1) := by
+  obtain ⟨h1, a, ha, hk⟩ := groupsBy_mem key l g h
+  have hall : ∀ x ∈ g.2, x ∈ l ∧ key x = g.1 := by
+    intro x hx
+    rw [h1] at hx
+    have := List.mem_filter.mp hx
+    exact ⟨this.1, by simpa using this.2⟩
+  refine ⟨?_, hall⟩
+  have hin : a ∈ g.2 := by
+    rw [h1]; exact List.mem_filter.mpr ⟨ha, by simp [hk]⟩
+  cases hg : g.2 with
+  | nil => rw [hg] at hin; simp at hin
+  | cons b rest => exact ⟨b, rest, rfl, (hall b (by rw [hg]; simp)).2⟩
+
+/-- GROUP BY as `evalBodyA` computes it, in terms of `groupsBy` -/
+theorem eraseDups_map_groups {α κ β} [BEq κ] (key : α → κ) (l : List α) (F : κ → List α → β) :
+    (l.map key).eraseDups.map (fun k => F k (l.filter (fun a => key a == k))) =
+      (groupsBy key l).map (fun g => F g.1 g.2) := by
+  unfold groupsBy
+  simp only [List.map_map, Function.comp_def]
+
+end Qryn.Sql
+
+namespace Qryn.LogQL
+open Qryn Qryn.Sql
+
+theorem rep_of_map (f : Pt → Row) (pts : List Pt) (h : ∀ p ∈ pts, rview (f p) = p.view ∧ StdRow (f p)) :
+    Rep (pts.map f) pts := by
+  refine ⟨?_, ?_⟩
+  · rw [List.map_map]
+    exact List.map_congr_left (fun p hp => (h p hp).1)
+  · intro r hr
+    obtain ⟨p, hp, rfl⟩ := List.mem_map.mp hr
+    exact (h p hp).2
+
+end Qryn.LogQL
+
+namespace Qryn.Sql
+
+/-- the GROUP BY key of a source row -/
+def gkey (o : Oracles) (env : Env) (cols gb : List Expr) (r : Row) : List Val :=
+  gb.map (fun g => evalE o env (aliasVals o env cols r ++ r) g)
+
+/-- the output row of a group -/
+def grow (o : Oracles) (env : Env) (cols : List Expr) (grp : List Row) : Row :=
+  cols.map (fun c => (colName c,
+    evalAgg o env (grp.map (fun r => aliasVals o env cols r ++ r)) (scope o env cols (colName c) (grp.headD [])) c))
+
+def havingFilter (o : Oracles) (env : Env) (hv : Option Expr) (out : Table) : Table :=
+  match hv with
+  | some h => out.filter (fun r => havingA o env r h)
+  | none => out
+
+/-- a grouping select without joins, WHERE, ORDER BY, LIMIT: one row per group, then HAVING -/
+theorem evalBodyA_grouped (o : Oracles) (db : Db) (env : Env) (ws : List (Alias × Sel)) (cols : List Expr) (f : Expr)
+    (S : Table) (hsrc : sourceRowsA o db env f = S) (gb : List Expr) (hgb : gb.isEmpty = false) (hv : Option Expr) :
+    evalBodyA o db env (.mk ws false cols (some f) [] none none gb hv [] none) =
+      havingFilter o env hv ((groupsBy (gkey o env cols gb) S).map (fun g => grow o env cols g.2)) := by
+  simp only [evalBodyA, hsrc, List.foldl_nil, optB, Bool.and_self, filter_true, hgb, Bool.false_and, Bool.false_eq_true,
+    if_false, List.isEmpty_nil, if_true]
+  have : (List.map (fun k =>
+            List.map (fun c => (colName c,
+                  evalAgg o env (List.map (fun r => aliasVals o env cols r ++ r)
+                      (List.filter (fun r => List.map (fun g => evalE o env (aliasVals o env cols r ++ r) g) gb == k) S))
+                    (scope o env cols (colName c)
+                      ((List.filter (fun r => List.map (fun g => evalE o env (aliasVals o env cols r ++ r) g) gb == k) S).headD []))
+                    c)) cols)
+          (List.map (fun r => List.map (fun g => evalE o env (aliasVals o env cols r ++ r) g) gb) S).eraseDups) =
+      (groupsBy (gkey o env cols gb) S).map (fun g => grow o env cols g.2) := by
+    unfold groupsBy gkey grow
+    simp only [List.map_map, Function.comp_def]
+  rw [this]
+  cases hv <;> rfl
+
+end Qryn.Sql
+
+namespace Qryn.Sql
+
+theorem get_append (l r : Row) (k : String) :
+    (l ++ r).get k = match l.lookup k with | some v => v | none => r.get k := by
+  unfold Row.get
+  rw [List.lookup_append]
+  cases l.lookup k <;> rfl
+
+/-- a name qualified by another alias is not a column of a qualified standard row -/
+theorem lookup_qualified_other (a k : String) (r : Row) (h : StdRow r) (hk : '.' ∈ k.toList)
+    (hne : ∀ k', Std5 k' → a ++ "." ++ k' ≠ k) : (qualify a r).lookup k = none := by
+  rw [qualify_eq, List.lookup_append]
+  have h1 : List.lookup k (r.map (fun (p : String × Val) => (a ++ "." ++ p.1, p.2))) = none := by
+    induction r with
+    | nil => rfl
+    | cons p r ih =>
+      obtain ⟨k', v⟩ := p
+      simp only [List.map_cons, List.lookup]
+      have : (k == a ++ "." ++ k') = false := by
+        rw [beq_eq_false_iff_ne]
+        exact fun e => hne k' (h (k', v) (List.mem_cons_self ..)) e.symm
+      rw [this]
+      exact ih (fun q hq => h q (List.mem_cons_of_mem _ hq))
+  have h2 : List.lookup k r = none := by
+    clear h1
+    induction r with
+    | nil => rfl
+    | cons p r ih =>
+      obtain ⟨k', v⟩ := p
+      simp only [List.lookup]
+      have : (k == k') = false := by
+        rw [beq_eq_false_iff_ne]
+        intro e
+        exact (h (k', v) (List.mem_cons_self ..)).noDot (e ▸ hk)
+      rw [this]
+      exact ih (fun q hq => h q (List.mem_cons_of_mem _ hq))
+  rw [h1, h2]; rfl
+
+theorem lookup_qualified (a k : String) (r : Row) (h : StdRow r) : (qualify a r).lookup (a ++ "." ++ k) = r.lookup k := by
+  rw [qualify_eq, List.lookup_append, lookup_prefixed]
+  cases hl : List.lookup k r with
+  | some v => rfl
+  | none => simp [lookup_dotted_std a k r h]
+
+end Qryn.Sql
+
+namespace Qryn.Sql
+
+theorem map_rel {α β γ δ} (f : α → γ) (f' : β → γ) (F : α → δ) (F' : β → δ) (l : List α) (l' : List β)
+    (h : l.map f = l'.map f') (hF : ∀ a ∈ l, ∀ b ∈ l', f a = f' b → F a = F' b) : l.map F = l'.map F' := by
+  induction l generalizing l' with
+  | nil =>
+    cases l' with
+    | nil => rfl
+    | cons b l' => simp at h
+  | cons a l ih =>
+    cases l' with
+    | nil => simp at h
+    | cons b l' =>
+      simp only [List.map_cons, List.cons.injEq] at h ⊢
+      exact ⟨hF a (List.mem_cons_self ..) b (List.mem_cons_self ..) h.1,
+        ih l' h.2 (fun a ha b hb => hF a (List.mem_cons_of_mem _ ha) b (List.mem_cons_of_mem _ hb))⟩
+
+theorem filter_rel {α β γ} (f : α → γ) (f' : β → γ) (P : α → Bool) (P' : β → Bool) (l : List α) (l' : List β)
+    (h : l.map f = l'.map f') (hP : ∀ a ∈ l, ∀ b ∈ l', f a = f' b → P a = P' b) :
+    (l.filter P).map f = (l'.filter P').map f' := by
+  induction l generalizing l' with
+  | nil =>
+    cases l' with
+    | nil => rfl
+    | cons b l' => simp at h
+  | cons a l ih =>
+    cases l' with
+    | nil => simp at h
+    | cons b l' =>
+      simp only [List.map_cons, List.cons.injEq] at h
+      have hp := hP a (List.mem_cons_self ..) b (List.mem_cons_self ..) h.1
+      have ih' := ih l' h.2 (fun a ha b hb => hP a (List.mem_cons_of_mem _ ha) b (List.mem_cons_of_mem _ hb))
+      simp only [List.filter_cons, hp]
+      split
+      · simp only [List.map_cons, h.1, ih']
+      · exact ih'
+
+/-- a literal `alias.col` name of a qualified standard row -/
+theorem get_q (a k ak : String) (hak : ak = a ++ "." ++ k) (r : Row) (h : StdRow r) : (qualify a r).get ak = r.get k := by
+  subst hak; exact get_qualified a k r h
+
+end Qryn.Sql
+
+namespace Qryn.Sql
+theorem get_cons (k k' : String) (v : Val) (r : Row) : Row.get ((k', v) :: r) k = if k == k' then v else r.get k := by
+  unfold Row.get
+  simp only [List.lookup]
+  cases k == k' <;> rfl
+end Qryn.Sql
+
+namespace Qryn.Sql
+theorem get_nil (k : String) : Row.get [] k = .null := rfl
+end Qryn.Sql
